@@ -597,11 +597,11 @@ func (g *gen) scriptSplitValuation() {
 	}
 }
 
-// reserve borrow (C02 side finding): with a reserve factor of one all interest of a single
+// reserve borrow (regression stream for the fixed begin-blocker division by zero): with a reserve factor of one all interest of a single
 // borrower goes to the reserves; after the borrower repays and the only supplier withdraws,
 // cash == reserves exactly and nothing is borrowed.  Any borrow of that denom is then accepted
-// (Coins.IsAnyGT ignores the zero available amount) and the next accruing begin block divides
-// by zero.
+// (Coins.IsAnyGT ignores the zero available amount); the next accruing begin block used to divide
+// by zero in CalculateUtilizationRatio and must now succeed.
 func (g *gen) scriptReserveBorrow() {
 	r := g.r
 	a, col := 0, 1
